@@ -125,8 +125,10 @@ struct P4Drv {
 
 // property-level check of one reconstructed code against the true hash code, using real AddCrt calls in the "new table"
 template<typename Drv>
-static void checkCodeP4(Ctx& c, const char* cfg, const Ghost& g, size_t index, unsigned L2, uint64_t code, Rng& rng)
+static void checkCodeP4(Ctx& c, const char* cfgName, const Ghost& g, size_t index, unsigned L2, uint64_t code, Rng& rng, const std::string& history = std::string())
 {
+	std::string cfgs = history.empty() ? std::string(cfgName) : (std::string(cfgName) + " after history [" + history + "]");
+	const char* cfg = cfgs.c_str();
 	uint64_t mask = (L2 >= 64) ? ~0ull : ((1ull << L2) - 1);
 	if ((code & mask) != (g.h & mask))
 		c.fail("C12 reconstruct %s: start bucket differs: h=%llu L=%u p=%llu index=%zu L'=%u code=%llu (code&mask=%llu, h&mask=%llu)", cfg,
@@ -250,7 +252,7 @@ static void historiesP4(Ctx& c, Rng& rng, Suite& s, const char* cfg, unsigned ro
 					s.op(fmt("b4 part %zu %s %u %u", i, u64s(B).c_str(), L, L2));
 					s.res(full ? "F" : u64s(code));
 					if (!full) {
-						checkCodeP4<Drv>(c, cfg, ghost[i], i, L2, code, rng);
+						checkCodeP4<Drv>(c, cfg, ghost[i], i, L2, code, rng, fmt("bucket=%s ", u64s(B).c_str()) + hist);
 						c.stats.count("p4.hist_reconstruct");
 						if (st > 0) c.stats.nontrivial(fmt("p4h %s r=%u st=%u i=%zu", cfg, r, st, i));
 					} else c.stats.count("p4.hist_full_getter");
@@ -304,8 +306,10 @@ struct O2Drv {
 static uint64_t tri(uint64_t p) { return p * (p + 1) / 2; }
 
 template<typename Drv>
-static void checkCodeO2(Ctx& c, const char* cfg, const Ghost& g, size_t slot, unsigned L2, uint64_t code, Rng& rng)
+static void checkCodeO2(Ctx& c, const char* cfgName, const Ghost& g, size_t slot, unsigned L2, uint64_t code, Rng& rng, const std::string& history = std::string())
 {
+	std::string cfgs = history.empty() ? std::string(cfgName) : (std::string(cfgName) + " after history [" + history + "]");
+	const char* cfg = cfgs.c_str();
 	uint64_t mask = (1ull << L2) - 1;
 	if ((code & mask) != (g.h & mask))
 		c.fail("C12 reconstruct %s: start bucket differs: h=%llu L=%u p=%llu slot=%zu L'=%u code=%llu (code&mask=%llu, h&mask=%llu)", cfg,
@@ -437,7 +441,7 @@ static void historiesO2(Ctx& c, Rng& rng, Suite& s, const char* cfg, unsigned ro
 					s.op(fmt("b2 part %zu %s %u %u", slot, u64s(B).c_str(), L, L2));
 					s.res(full ? "F" : u64s(code));
 					if (!full) {
-						checkCodeO2<Drv>(c, cfg, kv.second, slot, L2, code, rng);
+						checkCodeO2<Drv>(c, cfg, kv.second, slot, L2, code, rng, fmt("bucket=%s ", u64s(B).c_str()) + hist);
 						c.stats.count("o2.hist_reconstruct");
 						if (st > 0) c.stats.nontrivial(fmt("o2h %s r=%u st=%u slot=%zu", cfg, r, st, slot));
 					} else c.stats.count("o2.hist_full_getter");
